@@ -108,7 +108,8 @@ def gen_case(rng):
     Tc = 20 if big else T
     if tail == 'eof' and timeout_event is None and not split and rng.random() < 0.25:
         Tc = -1          # "the default": no pause in this dialogue comes anywhere near it
-    return {'enc': enc, 'steps': steps, 'events': events, 'overlap': overlap, 'form': rng.choice(['dict', 'list']),
+    return {'dup': rng.choice([0, 0, 1, 2, 3]), 'enc': enc, 'steps': steps, 'events': events, 'overlap': overlap,
+            'form': rng.choice(['dict', 'list']),
             'eof_event': eof_event, 'timeout_event': timeout_event, 'code': code, 'stop_at': stop_at,
             'withexitstatus': rng.random() < 0.7, 'runu': enc is not None and rng.random() < 0.5,
             'T': Tc, 'split_prompt': split}
@@ -199,6 +200,12 @@ def one(case, acc):
                 ticks[0] += 1
                 return True if ticks[0] >= case['timeout_event']['true_at'] else None
             pairs.append((TIMEOUT, book.make('tick', tick)))
+        if case['form'] == 'list' and case.get('dup') and case['events']:
+            # the same pattern listed again further down with another answer: the list keeps its priority order, so
+            # the first entry goes on answering
+            acc.count('lists_with_repeated_patterns')
+            j = case['dup'] % len(case['events'])
+            pairs.append((S(case['events'][j]['pat']), S('dup-answer\n')))
         events = dict(pairs) if case['form'] == 'dict' else list(pairs)
         if not pairs:
             events = None
